@@ -109,7 +109,7 @@ pub fn spec(id: &str) -> Option<PropSpec> {
             families: vec![(Family::C02, 100)],
             quick_runs: 60_000,
             thorough_runs: 6_000_000,
-            rule: "codec-level simulation: the real v3 / v5 codecs behind a simulated transport that decides how the byte stream is cut into reads. One run = a stream of 1..4 frames produced by the independent encoder (refcodec) from random valid packets (all packet types, v5 properties, payloads 0..20000 bytes), in 5 of 6 runs with one structure-aware mutation (remaining length inflated/deflated, truncation at any offset, bit flip, byte replaced, inner two-byte length +-k, QoS 3, zero packet id, invalid UTF-8 byte, unknown property, repeated once-only property, unknown reason code, splice, fixed-header flag flip), in 1 of 8 runs 0..6 random bytes; a PINGREQ sentinel follows; inbound maximum 0/64/300, min chunk 0/1/4/1024/32768; the stream is decoded in one read and under 2..4 fragmentations (one read, byte at a time, dense cuts at the start, random cut sets); for streams of at most 160 bytes one run in six additionally enumerates EVERY cut into two reads and (up to 40 bytes) EVERY cut into three reads (probe all-cuts-enumerated). Oracle: no panic or arithmetic overflow (overflow checks on); same packets, same complete payloads and the same error-or-not for every fragmentation; bytes consumed when a complete packet is returned end exactly at its frame; a frame the strict independent decoder puts into a must-reject class (length/count contradiction incl. trailing bytes, unknown or repeated property, unknown reason code, zero packet id, QoS 3, ill-formed UTF-8) is never accepted; an over-long frame is refused when only its fixed header has arrived; every accepted packet re-encodes and decodes to itself. The version-sniffing codec is private to the crate and is exercised at connection level by C19 only; distinct = (version, configuration, item kinds, error kind, stream length); non-trivial = a mutation was applied",
+            rule: "codec-level simulation: the real v3 / v5 codecs behind a simulated transport that decides how the byte stream is cut into reads. One run = a stream of 1..4 frames produced by the independent encoder (refcodec) from random valid packets (all packet types, v5 properties, payloads 0..20000 bytes), in 5 of 6 runs with one structure-aware mutation (remaining length inflated/deflated, truncation at any offset, bit flip, byte replaced, inner two-byte length +-k, QoS 3, zero packet id, invalid UTF-8 byte, unknown property, repeated once-only property, unknown reason code, splice, fixed-header flag flip), in 1 of 8 runs 0..6 random bytes; a PINGREQ sentinel follows; inbound maximum 0/64/300 or 1..20 bytes, min chunk 0/1/4/1024/32768; the stream is decoded in one read and under 2..4 fragmentations (one read, byte at a time, dense cuts at the start, random cut sets); for streams of at most 160 bytes one run in six additionally enumerates EVERY cut into two reads and (up to 40 bytes) EVERY cut into three reads (probe all-cuts-enumerated). Oracle: no panic or arithmetic overflow (overflow checks on); same packets, same complete payloads and the same error-or-not for every fragmentation; bytes consumed when a complete packet is returned end exactly at its frame; a frame the strict independent decoder puts into a must-reject class (length/count contradiction incl. trailing bytes, unknown or repeated property, unknown reason code, zero packet id, QoS 3, ill-formed UTF-8) is never accepted; an over-long frame is refused when only its fixed header has arrived; every accepted packet re-encodes and decodes to itself. The version-sniffing codec is private to the crate and is exercised at connection level by C19 only; distinct = (version, configuration, item kinds, error kind, stream length); non-trivial = a mutation was applied",
             nontrivial: nt_c02,
             assumptions: vec![
                 "the independent codec (refcodec) classifies frames correctly; U+0000 inside a string is not counted as ill-formed UTF-8",
@@ -163,7 +163,7 @@ pub fn spec(id: &str) -> Option<PropSpec> {
             families: vec![(Family::C06, 68), (Family::C14, 17), (Family::C13X, 15), (Family::C06L, 0)],
             quick_runs: 28_000,
             thorough_runs: 2_000_000,
-            rule: "16 runs (thorough; quick: 4, one per role) of the long-history family C06L - five senders make more than 65 536 sends (QoS 1, now and then exactly-once or subscribe) over one connection with a window of 1..16, so that the 16-bit identifier counter wraps with exchanges outstanding; linear-time oracle: identifiers non-zero and never carried by two exchanges at once, every send completes with the acknowledgement of its own identifier, no panic, the connection stays up. Part of the runs come from the enumerating family C13X (every short sequence of start / drop / acknowledge / back-pressure events against three senders, see C13), judged by the same oracle; one run = sends with automatic and caller-chosen ids acknowledged by a peer that is correct or injects one deviation (reordered id, wrong ack type, duplicate, unknown id, unsolicited); reference model = FIFO of outstanding exchanges seen on the wire; oracle: Ok only after a matching ack of the right type was sent, contents equal, ids of outstanding sends distinct and non-zero, deviation ends the connection, correct peer never does; distinct = distinct abstract history signature; non-trivial = a deviation was actually delivered, or two or more exchanges were outstanding together",
+            rule: "(MQTT 5: in a third of the C06 / C14 runs the peer's acknowledgements carry a user property and a reason string, in three orders; what the awaiting caller is handed - identifier, reason code, return codes, user properties, reason string - must be what the peer sent.) 16 runs (thorough; quick: 4, one per role) of the long-history family C06L - five senders make more than 65 536 sends (QoS 1, now and then exactly-once or subscribe) over one connection with a window of 1..16, so that the 16-bit identifier counter wraps with exchanges outstanding; linear-time oracle: identifiers non-zero and never carried by two exchanges at once, every send completes with the acknowledgement of its own identifier, no panic, the connection stays up. Part of the runs come from the enumerating family C13X (every short sequence of start / drop / acknowledge / back-pressure events against three senders, see C13), judged by the same oracle; one run = sends with automatic and caller-chosen ids acknowledged by a peer that is correct or injects one deviation (reordered id, wrong ack type, duplicate, unknown id, unsolicited); reference model = FIFO of outstanding exchanges seen on the wire; oracle: Ok only after a matching ack of the right type was sent, contents equal, ids of outstanding sends distinct and non-zero, deviation ends the connection, correct peer never does; distinct = distinct abstract history signature; non-trivial = a deviation was actually delivered, or two or more exchanges were outstanding together",
             nontrivial: nt_c06,
             assumptions: base,
         },
@@ -173,7 +173,7 @@ pub fn spec(id: &str) -> Option<PropSpec> {
             families: vec![(Family::C07, 60), (Family::C07X, 40)],
             quick_runs: 40_000,
             thorough_runs: 3_000_000,
-            rule: "two families. (1) C07X, fault enumeration: a base scenario (0..4 inbound publishes of 0..40 payload bytes with gated / held handlers, eager / lazy / abandoning payload readers, 0..3 sender tasks awaiting acks or parked on a window of 1..2, optional write back-pressure, control(Stop) gated or not) is drawn from one seed; then EVERY fault point of the grid is executed against it, all other draws being identical: peer FIN, peer RST and a write error at each simulator step 1..96, the peer's byte stream ending with FIN and with RST after each byte offset 0..255 (bytes beyond it never arrive: truncated CONNECT, truncated fixed header, truncated payload ...), and the endpoint's writes failing after each output byte offset 0..127; 928 fault points per base scenario, points that lie beyond the end of the scenario leave it to the closing FIN. (2) C07, seeded sweep: larger base scenarios (payloads up to 2000 bytes) and one termination cause drawn from: FIN / RST / write error at a step drawn uniformly over the run, undecodable bytes or a packet cut short followed by FIN, protocol violation (second CONNECT, unknown topic alias, duplicate id), failing publish/protocol handlers, keep-alive expiry on the simulated clock, local close / close_with_reason / force_close, peer DISCONNECT; control(Stop) gated in half of the runs and answering none / own DISCONNECT / error; every run ends with a closing FIN. Oracle at final quiescence (both families): exactly one Stop once the connection's services exist, its class names a cause present in the history (or a documented consequence of one), the connection task completed, every started send / ready() resolved (Disconnected when it was pending across the end), no handler left waiting, a handler cancelled only after the Stop notification had been handled, a waiting payload reader observed an error, no panic; distinct = distinct abstract history signature; non-trivial = a handler invocation or a send was in flight when the connection ended",
+            rule: "(Handlers of a connection whose task has completed are not opened by the simulator any more: a handler the library fails to cancel stays parked and is reported as left waiting. Motifs: the termination cause in the same read as the last publishes; a SUBSCRIBE handler that publishes through the sink and awaits the acknowledgement.) two families. (1) C07X, fault enumeration: a base scenario (0..4 inbound publishes of 0..40 payload bytes with gated / held handlers, eager / lazy / abandoning payload readers, 0..3 sender tasks awaiting acks or parked on a window of 1..2, optional write back-pressure, control(Stop) gated or not) is drawn from one seed; then EVERY fault point of the grid is executed against it, all other draws being identical: peer FIN, peer RST and a write error at each simulator step 1..96, the peer's byte stream ending with FIN and with RST after each byte offset 0..255 (bytes beyond it never arrive: truncated CONNECT, truncated fixed header, truncated payload ...), and the endpoint's writes failing after each output byte offset 0..127; 928 fault points per base scenario, points that lie beyond the end of the scenario leave it to the closing FIN. (2) C07, seeded sweep: larger base scenarios (payloads up to 2000 bytes) and one termination cause drawn from: FIN / RST / write error at a step drawn uniformly over the run, undecodable bytes or a packet cut short followed by FIN, protocol violation (second CONNECT, unknown topic alias, duplicate id), failing publish/protocol handlers, keep-alive expiry on the simulated clock, local close / close_with_reason / force_close, peer DISCONNECT; control(Stop) gated in half of the runs and answering none / own DISCONNECT / error; every run ends with a closing FIN. Oracle at final quiescence (both families): exactly one Stop once the connection's services exist, its class names a cause present in the history (or a documented consequence of one), the connection task completed, every started send / ready() resolved (Disconnected when it was pending across the end), no handler left waiting, a handler cancelled only after the Stop notification had been handled, a waiting payload reader observed an error, no panic; distinct = distinct abstract history signature; non-trivial = a handler invocation or a send was in flight when the connection ended",
             nontrivial: nt_c07,
             assumptions: base,
         },
@@ -263,7 +263,7 @@ pub fn spec(id: &str) -> Option<PropSpec> {
             families: vec![(Family::C19, 58), (Family::C19W, 17), (Family::C19C, 12), (Family::C20, 13)],
             quick_runs: 26_000,
             thorough_runs: 2_000_000,
-            rule: "server roles, plain v3 / v5 server or the combined (version sniffing) server in front of both. First packet: a valid CONNECT (keep-alive 0 / 10 / 60000), any other packet type, CONNECT with an unknown protocol name (MQTX, MQIsdp, mqtt, empty) or level (0, 3, 6, 255) or the reserved connect flag, handshake service refusing (every refusal code) / failing / answering slowly (gated); 1..2 small publishes are pipelined right behind it; the stream is delivered in one piece, byte at a time or in random cuts. After an accepted CONNECT one limit is probed at and just beyond its negotiated value: inbound maximum packet size (configured, or MQTT 5 handshake override), maximum QoS (configured / override), topic alias maximum (configured / override), receive maximum (configured / override, handlers held). Oracle: no publish/protocol handler before the handshake service accepted the CONNECT, none at all otherwise; invalid first packets never reach the handshake service and end the connection; a refusal is preceded by a CONNACK with the refusing code; the CONNECT is handled by the service of its protocol level with its fields intact and pipelined packets are handled after acceptance; MQTT 5 CONNACK announces receive maximum, maximum QoS, topic alias maximum, maximum packet size and an imposed keep-alive as in force; the probe at the limit is handled, the one beyond it is refused with a protocol error. A quarter of the runs use C05's outbound workload on server roles with every combination of configured max_send, handshake override and the peer's Receive Maximum: QoS1/2 publishes on the wire and not finally acknowledged never exceed min(configured or overridden, peer's Receive Maximum). A seventh of the runs are C20's keep-alive scenarios on the simulated clock (client values 1, 2, 3, 6 s and 0; handshake overrides 1..8 s, also imposed on a client that asked for 60 s): the timeout in force is 1.5 times the client's value or exactly the override - never shorter (exact), never more than 2 s longer (timer wheel); distinct = abstract history signature; non-trivial = the first packet was not a plain accepted CONNECT, or a limit probe was delivered",
+            rule: "(Keep-alives up to 65 535 s; a Server Keep Alive in CONNACK without an override by the handshake is a violation. Family C19C: the limits a MQTT 5 client announced in CONNECT are the ones it enforces.) server roles, plain v3 / v5 server or the combined (version sniffing) server in front of both. First packet: a valid CONNECT (keep-alive 0 / 10 / 60000), any other packet type, CONNECT with an unknown protocol name (MQTX, MQIsdp, mqtt, empty) or level (0, 3, 6, 255) or the reserved connect flag, handshake service refusing (every refusal code) / failing / answering slowly (gated); 1..2 small publishes are pipelined right behind it; the stream is delivered in one piece, byte at a time or in random cuts. After an accepted CONNECT one limit is probed at and just beyond its negotiated value: inbound maximum packet size (configured, or MQTT 5 handshake override), maximum QoS (configured / override), topic alias maximum (configured / override), receive maximum (configured / override, handlers held). Oracle: no publish/protocol handler before the handshake service accepted the CONNECT, none at all otherwise; invalid first packets never reach the handshake service and end the connection; a refusal is preceded by a CONNACK with the refusing code; the CONNECT is handled by the service of its protocol level with its fields intact and pipelined packets are handled after acceptance; MQTT 5 CONNACK announces receive maximum, maximum QoS, topic alias maximum, maximum packet size and an imposed keep-alive as in force; the probe at the limit is handled, the one beyond it is refused with a protocol error. A quarter of the runs use C05's outbound workload on server roles with every combination of configured max_send, handshake override and the peer's Receive Maximum: QoS1/2 publishes on the wire and not finally acknowledged never exceed min(configured or overridden, peer's Receive Maximum). A seventh of the runs are C20's keep-alive scenarios on the simulated clock (client values 1, 2, 3, 6 s and 0; handshake overrides 1..8 s, also imposed on a client that asked for 60 s): the timeout in force is 1.5 times the client's value or exactly the override - never shorter (exact), never more than 2 s longer (timer wheel); distinct = abstract history signature; non-trivial = the first packet was not a plain accepted CONNECT, or a limit probe was delivered",
             nontrivial: nt_c19,
             assumptions: base,
         },
